@@ -31,6 +31,7 @@ MIN_NONTRIVIAL_FRACTION = 0.2
 RULE += " Added after the seeded rounds: " + 'Tools are also requested as an argument of another tool, inside arithmetic and inside a comparison, and under other spellings of their name (upper-case, title-case, padded). Bodies are counted per registration (a body whose own registration is outside the allowed set must never run, whatever the name resolves to), and 1/8 of the generated cases plus an enumerated table are two-thread races: one thread requests t0 through metabolize / execute_tool_call / the Nucleus tool loop while a second re-registers t0 with other requirements, under every single-preemption schedule (line granularity of mitochondria.py and nucleus.py) and under generated schedules.'
 RULE += ' In the LLM tool loop one provider turn requests the tool under test twice plus every other registered tool, with call ids that are distinct, all equal, empty, or equal with the order reversed (a verdict about one call must never cover another); enumerated for two tools x both registration orders x 4 id modes.'
 RULE += " Capability sets include non-enum string tags ('gpu', 'custom:db', which the engine supports) and sets larger than the enum (up to 8 entries)."
+RULE += " Round 7: `peer` steps build a second engine with an allowed set of its own, hand it the very tool object the first engine holds (engulf_tool(m.tools[name])) and request the tool there; every request is judged by the policy of the engine it was made on and the requirement declared at registration."
 EXHAUSTIVE_NOTE = {"quick": "16 allowed sets (incl. None, empty, full, sets with non-enum tags and sets larger than the enum) x 16 required sets x 10 entry points = 2560 single-tool cases, complete for that lattice; re-registration race: 3 configurations x 4 entry points x every single preemption point up to step 90",
                    "thorough": "same lattice, complete; race table up to step 160"}
 
@@ -53,6 +54,8 @@ _step = st.one_of(
     st.tuples(st.just("call"), st.sampled_from(ENTRIES), st.sampled_from(TOOLS)),
     st.tuples(st.just("call"), st.sampled_from(["execute_tool_call", "nucleus", "auto"]), st.sampled_from(TOOLS)),
     st.tuples(st.just("call"), st.sampled_from(["execute_tool_call", "nucleus", "auto", "forced-tool"]), st.sampled_from(TOOLS), st.sampled_from(["upper", "title", "padded"])),
+    # a second engine with a policy of its own is handed the very tool object the first one holds, and asked for it
+    st.tuples(st.just("peer"), st.sampled_from(["execute_tool_call", "nucleus", "auto", "forced-tool"]), st.sampled_from(TOOLS), st.one_of(st.none(), st.just([]), _caps, st.just(list(CAPS) + TAGS))),
 ).map(list)
 
 
@@ -99,6 +102,12 @@ def enumerate_cases(tier):
         for entry in RACE_ENTRIES:
             for s1 in range(1, horizon):
                 yield {"allowed": allowed, "init": [], "steps": [], "race": {"old": old, "new": ["NET"], "entry": entry, "how": "engulf", "plan": {"first": 0, "preempt": [[s1, 1]]}}}
+    for entry in ("auto", "forced-tool", "execute_tool_call", "nucleus"):
+        for pentry in ("auto", "execute_tool_call", "nucleus"):
+            for req, allowed, pallowed in ((["NET"], [], ["NET"]), (["NET"], [], None), (["NET", "MONEY"], ["NET"], ["MONEY"]), (["NET", "MONEY"], ["MONEY"], ["NET"]),
+                                           (["NET"], ["READ_FS"], list(CAPS)), (["gpu"], [], ["gpu"]), (["NET"], ["NET"], [])):
+                for how in ("engulf", "register_function"):
+                    yield {"allowed": allowed, "init": [], "steps": [["reg", how, "t0", req], ["peer", pentry, "t0", pallowed], ["call", entry, "t0"], ["peer", pentry, "t0", pallowed], ["call", entry, "t0"]]}
     for entry in ("auto", "forced-tool", "execute_tool_call", "nucleus"):
         for variant in ("upper", "title", "padded"):
             for allowed in ([], ["NET"]):
@@ -191,7 +200,20 @@ def judge(case):
                 return out
             continue
         entry, name = step[1], step[2]
-        variant = step[3] if len(step) > 3 else "exact"
+        eng, eng_allowed = m, case["allowed"]
+        if step[0] == "peer":
+            tool_obj = m.tools.get(name)
+            if tool_obj is None:
+                continue
+            eng_allowed = step[3]
+            try:
+                eng = Mitochondria(allowed_capabilities=None if eng_allowed is None else {_cap(Capability, c) for c in eng_allowed}, silent=True, max_ros=1000.0)
+                eng.engulf_tool(tool_obj)
+            except Exception as e:
+                out.fail("raise:%s:register" % type(e).__name__, "handing the tool to a second engine raised %s" % e, {"step": i})
+                return out
+            out.label("peer-engine")
+        variant = step[3] if len(step) > 3 and step[0] == "call" else "exact"
         # the tool may be requested under another spelling of its name: whatever the engine resolves it to, a disallowed body must not run
         asked = {"exact": name, "upper": name.upper(), "title": name.title(), "padded": " " + name + " "}[variant]
         before = dict(counters)
@@ -209,19 +231,19 @@ def judge(case):
                     # as the argument of a permitted helper tool registered just for this request
                     counters.setdefault("helper", 0)
                     required.setdefault("helper", set())
-                    if "helper" not in m.tools:
-                        m.register_function("helper", lambda *a, **k: "helper-result", "d")
+                    if "helper" not in eng.tools:
+                        eng.register_function("helper", lambda *a, **k: "helper-result", "d")
                     text = "helper(%s())" % name
                 elif entry == "in-arithmetic":
                     text = "len(%s()) + 1" % name
                 elif entry == "in-comparison":
                     text = "1 < len(%s())" % name
-                r = m.metabolize(text, pw)
+                r = eng.metabolize(text, pw)
                 reported_success = r.success
                 returned.append(repr(r.atp.value) if r.atp else "")
                 returned.append(r.error or "")
             elif entry == "execute_tool_call":
-                r = m.execute_tool_call(ToolCall(id="c%d" % i, name=asked, arguments={}))
+                r = eng.execute_tool_call(ToolCall(id="c%d" % i, name=asked, arguments={}))
                 reported_success = r.success
                 returned.append(str(r.output))
                 returned.append(r.error or "")
@@ -250,7 +272,7 @@ def judge(case):
                         calls = [ToolCall(id=mk(k), name=w, arguments={}) for k, w in enumerate(wanted)] if len(prompts) <= 3 else []
                         return LLMResponse(content="r", model="m", tokens_used=1, latency_ms=0.0), calls
 
-                resp = Nucleus(provider=Provider()).transcribe_with_tools("please", m, max_iterations=3)
+                resp = Nucleus(provider=Provider()).transcribe_with_tools("please", eng, max_iterations=3)
                 returned.append(resp.content)
                 leaked_into = prompts
             else:
@@ -260,22 +282,22 @@ def judge(case):
         except Exception as e:
             out.fail("raise:%s:%s" % (type(e).__name__, entry), "%s raised %s: %s" % (entry, type(e).__name__, e), {"step": i, "case_step": step})
             return out
-        d = {"step": i, "entry": entry, "tool": name, "allowed": case["allowed"], "required": sorted(required.get(name, [])),
+        d = {"step": i, "entry": entry, "tool": name, "allowed": eng_allowed, "engine": "peer" if eng is not m else "main", "required": sorted(required.get(name, [])),
              "ran": counters.get(name, 0) - before.get(name, 0), "reported_success": reported_success}
         for rec, b4 in zip(regs, ran_before + [0] * len(regs)):
-            if allowed is not None and rec[2] != b4 and not rec[1] <= set(case["allowed"]):
+            if eng_allowed is not None and rec[2] != b4 and not rec[1] <= set(eng_allowed):
                 out.nontrivial = True
                 out.fail("disallowed-tool-ran:%s" % entry, "a body of tool %s registered with requirement %s ran through %s although only %s is allowed"
-                         % (rec[0], sorted(rec[1]), entry, case["allowed"]), d)
+                         % (rec[0], sorted(rec[1]), entry, eng_allowed), d)
                 return out
         resolved = name in required and entry not in ("forced-math", "forced-logic", "forced-transform", "in-arithmetic", "in-comparison")
-        if disallowed(name):
+        if eng_allowed is not None and name in required and not required[name] <= set(eng_allowed):
             if resolved:
                 out.nontrivial = True
             out.label("request:disallowed:%s" % entry)
             if counters.get(name, 0) != before.get(name, 0):
                 out.fail("disallowed-tool-ran:%s" % entry, "tool %s (requires %s) ran through %s although only %s is allowed"
-                         % (name, sorted(required[name]), entry, case["allowed"]), d)
+                         % (name, sorted(required[name]), entry, eng_allowed), d)
                 return out
             if reported_success:
                 out.fail("refusal-reported-as-success:%s" % entry, "request for disallowed tool %s reported success" % name, d)
